@@ -25,6 +25,7 @@ const fn l(tag: &'static str, text: &'static str) -> Snippet {
 pub const SNIPPETS: &[Snippet] = &[
     // ---------------- group_local_assignment
     s("gl:reads", "local a# = @A\nlocal b# = a# + @B\nlocal c# = @C\nlocal d# = get1()\nemit(a#, b#, c#, d#)"),
+    s("gl:reads-second-of-pair", "local a#, b# = @A, @B\nlocal c# = b# + 1\nlocal d#, e# = @C, get1()\nlocal f# = function() return e# end\nemit(a#, b#, c#, d#, e#, f#())"),
     s("gl:independent", "local a# = get1()\nlocal b# = get2()\nlocal c# = @A\nemit(a#, b#, c#)"),
     s("gl:captures", "local a# = get1()\nlocal f# = function() return a# end\nlocal g# = get2()\nlocal h# = function() return g# + 1 end\nemit(f#(), g#, h#())"),
     s("gl:shadows", "local a# = @A\nlocal a# = @B\nlocal b# = @C\nemit(a#, b#)"),
